@@ -455,6 +455,16 @@ func (f *indexFetcher) newInIndexIterator(
 		return nil, NewErrInvalidInOperatorValue(err)
 	}
 
+	// every value gets its own pass over the index: a value given twice would yield
+	// its documents twice
+	seenValues := make(map[string]struct{}, len(inValues))
+	inValues = slices.DeleteFunc(inValues, func(v client.NormalValue) bool {
+		encoded := string(encoding.EncodeFieldValue(nil, v, false))
+		_, isDuplicate := seenValues[encoded]
+		seenValues[encoded] = struct{}{}
+		return isDuplicate
+	})
+
 	// iterators for _in filter already iterate over keys with first field value
 	// matching the filter value, so we can skip the first matcher
 	if len(matchers) > 1 {
